@@ -295,6 +295,54 @@ def validate_traces(ctx, recs, tag="Trace_C01"):
     return bad, accepted
 
 
+def check_big_default(job):
+    """A file of several megabytes read with the DEFAULT chunk size (5 000 000 bytes) and counted (count_entries works in chunks of
+    500 000 bytes): the entries are those of a small file repeated (the meaning of a file is the sequence of its records, so the file
+    repeated m times holds its entries m times, ChunkL0), compared chunk by chunk."""
+    import bionumpy as bnp
+    fmt, src, d = job
+    specs = [(i * 5) % 3 for i in range(7)] if not formats.FORMATS[fmt]["exact"] else [SHAPES[formats.FORMATS[fmt]["family"]][i % len(SHAPES[formats.FORMATS[fmt]["family"]])] for i in range(7)]
+    data, rows, lens, hdr = formats.render(fmt, specs)
+    body = data[hdr:]
+    m = 11_000_000 // len(body) + 1
+    path = os.path.join(d, "big_%s_%d%s%s" % (fmt, os.getpid(), formats.FORMATS[fmt]["suffix"], ".gz" if src == "gzip" else ""))
+    with (gzip.open(path, "wb", compresslevel=1) if src == "gzip" else open(path, "wb")) as f:
+        f.write(data[:hdr])
+        for _ in range(m):
+            f.write(body)
+    n_total = m * len(rows)
+    bad, calls = [], 0
+    kw = {}
+    bt = formats.buffer_type(fmt)
+    if bt is not None:
+        kw["buffer_type"] = bt
+
+    def chunks():
+        pos, nchunks = 0, 0
+        for c in bnp.open(path, **kw).read_chunks():
+            got = formats.project_table(c)
+            k0 = pos % len(rows)
+            want = (rows[k0:] + rows * (len(got) // len(rows) + 1))[:len(got)]
+            if got != want:
+                first = next(i for i, (a, b) in enumerate(zip(got, want)) if a != b)
+                return {"ok": False, "at": pos + first, "got": got[first], "want": want[first]}
+            pos += len(got)
+            nchunks += 1
+        return {"ok": pos == n_total, "entries": pos, "chunks": nchunks}
+    o = outcome(chunks)
+    calls += 1
+    if o[0] != "ok" or not o[1]["ok"]:
+        bad.append({"what": "a %s file of %d entries read with the default chunk size differs from its entries" % (fmt, n_total), "tags": {"format": fmt, "src": src, "op": "read_chunks[default size]", "binding": "A"},
+                    "vector": {"fmt": fmt, "entries": n_total}, "expected": n_total, "observed": str(o)[:300]})
+    o = outcome(lambda: int(bnp.count_entries(path, **kw)))
+    calls += 1
+    if o != ("ok", n_total):
+        bad.append({"what": "count_entries of a %s file of %d entries" % (fmt, n_total), "tags": {"format": fmt, "src": src, "op": "count_entries[big]", "binding": "A"},
+                    "vector": {"fmt": fmt, "entries": n_total}, "expected": n_total, "observed": o})
+    os.remove(path)
+    return {"n": calls, "nt": ["bigdefault|%s|%s" % (fmt, src)], "bad": bad}
+
+
 def _jobs(ctx, quick):
     rng = random.Random(ctx.seed + 101)
     jobs = []
@@ -403,6 +451,9 @@ def run(ctx):
     ctx.sample(vectors[0])
     ctx.sample(vectors[len(vectors) // 2])
     ctx.absorb(core.pmap(check_vector, vectors, chunk=40))
+    # files of about 11 MB with the default chunk size, plain and gzip
+    bigs = [("bed6", "file"), ("fastq", "gzip"), ("fasta", "file")] if quick else [(f, s_) for f in ("bed6", "fastq", "fasta", "vcfd", "sam", "fasta2") for s_ in ("file", "gzip")]
+    ctx.absorb(core.pmap(check_big_default, [(f, s_, ctx.work) for f, s_ in bigs], chunk=1))
     # binding B
     jobs = _jobs(ctx, quick)
     recs = core.pmap(record_trace, jobs, chunk=40)
